@@ -128,7 +128,17 @@ impl SamplingMode {
                 freq
             )));
         }
-        Ok(((sampling_config.freq()?.hz() / freq.hz()).round() as u64, 1))
+        // The frequencies that can be output are `fs / n`: of the two buffer sizes next to
+        // `fs / freq`, take the one whose frequency is nearer to the requested one.
+        let fs = sampling_config.freq()?.hz();
+        let n = fs / freq.hz();
+        let (lower, upper) = (n.floor(), n.ceil());
+        let n = if fs / lower - freq.hz() <= freq.hz() - fs / upper {
+            lower
+        } else {
+            upper
+        };
+        Ok((n as u64, 1))
     }
 }
 
